@@ -261,7 +261,7 @@ PROPS = {
  },
  "C03": {
   "modules": ["OsmoVerif.Props.C03", "OsmoVerif.Props.C03Limit", "OsmoVerif.Props.C03Dust", "OsmoVerif.Props.C03Ideal"],
-  "min_theorems": 100,
+  "min_theorems": 101,
   "fingerprints": ["CL.*"],
   "engines": [{"name": "clmath", "kind": "pure", "n": {"quick": 40000, "thorough": 500000}, "shards": {"quick": 4, "thorough": 16}},
               {"name": "cl", "kind": "app", "n": {"quick": 1500, "thorough": 20000}, "shards": {"quick": 4, "thorough": 16}, "env": NO_EXPORT_IMPORT}],
